@@ -59,3 +59,31 @@ def locmem():
         if hasattr(loader, "templates_dict"):
             return loader.templates_dict
     raise RuntimeError("no locmem loader")
+
+
+def fake_translations(lang: str = "xx"):
+    """Activate a catalog in which EVERY message has a visible translation ("‹T:msg›"), so that
+    whether a string went through _() is observable in both stock Django and the library."""
+    from django.utils import translation
+    from django.utils.translation import trans_real
+
+    class Catalog:
+        def gettext(self, m):
+            return "‹T:" + m + "›"
+
+        def ngettext(self, s, p, n):
+            return "‹T:" + (s if n == 1 else p) + "›"
+
+        def pgettext(self, c, m):
+            return "‹T:" + c + "|" + m + "›"
+
+        def npgettext(self, c, s, p, n):
+            return "‹T:" + c + "|" + (s if n == 1 else p) + "›"
+
+        def to_language(self):
+            return lang
+        language = lambda self: lang     # noqa: E731
+        _catalog = {}
+
+    trans_real._translations[lang] = Catalog()
+    translation.activate(lang)
